@@ -228,6 +228,51 @@ func c04Handler(c *ctxT, sb *strings.Builder) {
 		c.facts["C04.handleRefund_steps"] = steps
 	}
 
+	// ---- bridgeCallTransferCoins: WHICH tokens are minted before the unlock (guard of `mintCoins = mintCoins.Add(coin)`) ----
+	{
+		guard, where := "unknown", "(no mintCoins.Add found)"
+		if fd := c.findFunc(keeper, "Keeper", "bridgeCallTransferCoins"); fd != nil && fd.Body != nil {
+			fromDenomCheck := strings.Contains(squash(c.src(fd.Body)), "isOriginOrConverted:=k.erc20Keeper.IsOriginOrConvertedDenom(ctx,bridgeDenom)")
+			var walk func(n ast.Node, cond string)
+			walk = func(n ast.Node, cond string) {
+				ast.Inspect(n, func(x ast.Node) bool {
+					switch s := x.(type) {
+					case *ast.IfStmt:
+						walk(s.Body, squash(c.src(s.Cond)))
+						if s.Else != nil {
+							walk(s.Else, "else")
+						}
+						return false
+					case *ast.AssignStmt:
+						if squash(c.src(s)) == "mintCoins=mintCoins.Add(coin)" {
+							where = c.pos(s) + " under `" + cond + "`"
+							switch {
+							case cond == "!isOriginOrConverted" && fromDenomCheck:
+								guard = "notOrigin"
+							case cond == "isOriginOrConverted" && fromDenomCheck:
+								guard = "origin"
+							case cond == "":
+								guard = "always"
+							}
+						}
+					}
+					return true
+				})
+			}
+			for _, st := range fd.Body.List {
+				if fs, ok := st.(*ast.ForStmt); ok {
+					walk(fs.Body, "")
+				}
+				if rs, ok := st.(*ast.RangeStmt); ok {
+					walk(rs.Body, "")
+				}
+			}
+		}
+		sb.WriteString("/-- `bridgeCallTransferCoins`: the tokens added to `mintCoins` — " + strings.ReplaceAll(where, "-/", "- /") + " -/\n")
+		sb.WriteString("def bridgeCallTransferCoins_mintGuard : MintGuard := ." + guard + "\n\n")
+		c.facts["C04.bridgeCallTransferCoins_mintGuard"] = guard
+	}
+
 	// ---- bridgeCallTransferTokens: per coin ----
 	{
 		var fxSteps, otherSteps []string
